@@ -183,6 +183,9 @@ fn load_case(r: &mut Rng, pool: &[crate::gen::dsl::Pattern], i: usize) -> CaseSp
 
 /// hostile but loadable programs (with a source to run them on)
 const HOSTILE_PROGRAMS: &[(&str, &str)] = &[
+    ("(module) @_m {\n  node n\n  attr (n) dbg_var = \"other\"\n}\n", "x = 1\n"),
+    ("(module) @_m {\n  node a\n  node b\n  edge a -> b\n  attr (a -> b) dbg_loc = \"elsewhere\"\n}\n", "x = 1\n"),
+    ("(module) @_m {\n  node n\n  attr (n) dbg_match = 3, dbg_loc = 4\n}\n", "pass\n"),
     ("attribute sh = x => k = @m\n(module) @_m { node n attr (n) sh = 1 }", "pass\n"),
     ("(module) @_a @_b @_c { node n }", "pass\n"),
     ("(pass_statement)* @_m { node n }", "pass\n"),
@@ -404,8 +407,14 @@ fn run_exec(runner: &mut Runner, rep_local: &mut Report, text: &str, source: &st
             }
         }
     }
-    for lazy in [false, true] {
-        let mode = if lazy { "lazy" } else { "strict" };
+    // programs that mention `dbg_…` attribute names are also run with debug attributes of exactly those names: a clash between
+    // an `attr` statement and an attribute that no `attr` statement set is an error like any other
+    let with_debug = text.contains("dbg_");
+    for (lazy, dbg) in [(false, false), (true, false), (false, true), (true, true)] {
+        if dbg && !with_debug {
+            continue;
+        }
+        let mode = match (lazy, dbg) { (false, false) => "strict", (true, false) => "lazy", (false, true) => "strict+debug", (true, true) => "lazy+debug" };
         let r = catch_unwind(AssertUnwindSafe(|| {
             let functions = Functions::stdlib();
             let mut vars = Variables::new();
@@ -413,6 +422,7 @@ fn run_exec(runner: &mut Runner, rep_local: &mut Report, text: &str, source: &st
                 let _ = vars.add(Identifier::from(k.as_str()), v.clone());
             }
             let config = ExecutionConfig::new(&functions, &vars).lazy(lazy);
+            let config = if dbg { config.debug_attributes(Identifier::from("dbg_loc"), Identifier::from("dbg_var"), Identifier::from("dbg_match")) } else { config };
             let res = file.execute(&tree, source, &config, &NoCancellation);
             match res {
                 Ok(g) => {
